@@ -1002,9 +1002,22 @@ class Host(utils.EventEmitter):
             logger.exception('!!! error parsing packet from bytes')
             return
 
-        if self.ready or (
-            isinstance(hci_packet, hci.HCI_Command_Complete_Event)
-            and hci_packet.command_opcode == hci.HCI_RESET_COMMAND
+        if (
+            self.ready
+            or (
+                isinstance(hci_packet, hci.HCI_Command_Complete_Event)
+                and hci_packet.command_opcode == hci.HCI_RESET_COMMAND
+            )
+            or (
+                # The response to the command in flight is always processed: its
+                # sender is waiting for it, and holds the command semaphore
+                isinstance(
+                    hci_packet,
+                    (hci.HCI_Command_Complete_Event, hci.HCI_Command_Status_Event),
+                )
+                and self.pending_command is not None
+                and hci_packet.command_opcode == self.pending_command.op_code
+            )
         ):
             self.on_hci_packet(hci_packet)
         else:
